@@ -113,6 +113,15 @@ class FSession(KSession):
             return
         self._residual_pows(None, x, y, w, r[0], r[1])
 
+    def _failed_pows_ols(self, x, y):
+        """line_fit raised: with unit weights _line_fit_wls performs the same float operations for a_, b_"""
+        if len(x) != len(y): return
+        try:
+            r = self.ta._line_fit_wls(tuple(float(v) for v in x), tuple(float(v) for v in y), [1.0] * len(x))
+        except Exception:
+            return
+        self._residual_pows(None, x, y, None, r[0], r[1])
+
     def _residual_pows(self, fit, x, y, w=None, a_=None, b_=None):
         """(y_i - a_ - b_*x_i)**2 is float ** int: the operator-level external is added by rule"""
         if fit is not None: a_, b_ = fit.a_b[0].x, fit.a_b[1].x
@@ -151,7 +160,7 @@ class FSession(KSession):
         t = '(FFitOLS %s %s %s)' % (cflist(x), cflist(y), clab(label))
         return self._do_fit(t, ('fit', 'COLS', list(x), list(y), None, None, label),
                             lambda: self.ta.line_fit(list(x), list(y), label=self._pylabel(label)),
-                            lambda f: self._residual_pows(f, x, y))
+                            lambda f: self._residual_pows(f, x, y), lambda: self._failed_pows_ols(x, y))
 
     def fit_wls(self, x, y, u, dof=None, label=None):
         t = '(FFitWLS %s %s %s %s %s)' % (cflist(x), cflist(y), cflist(u), cdof(dof), clab(label))
@@ -165,6 +174,33 @@ class FSession(KSession):
                             lambda: self.ta.line_fit_rwls(list(x), list(y), list(s), dof=dof, label=self._pylabel(label)),
                             lambda f: self._residual_pows(f, x, y, s), lambda: self._failed_pows(x, y, s))
 
+    def _typeb_reference(self, x, y, ux, uy, r_xy, a0_b0):
+        """type_b.line_fit_wtls on the same data, in a context of its own: the external computation whose
+        results (and uid consumption) the wrapper model takes as an oracle -- also when the wrapper itself
+        fails afterwards (e.g. in a.set_correlation)"""
+        saved = self.context._context
+        try:
+            c2 = new_context(self.ctx_id + 100000)
+            ind = r_xy is None
+            xu = [self.lib.UncertainReal._elementary(float(v), w, math.inf, None, ind) for v, w in zip(x, ux)]
+            yu = [self.lib.UncertainReal._elementary(float(v), w, math.inf, None, ind) for v, w in zip(y, uy)]
+            if not ind:
+                for p, q, rr in zip(xu, yu, r_xy): p.set_correlation(rr, q)
+            fb = self.tb.line_fit_wtls(xu, yu, a_b=a0_b0)
+            ab, bb = fb.a_b
+            return {'skip': c2._elementary_id_counter,
+                    'vals': (ab.x, ab.u, bb.x, bb.u, ab.get_correlation(bb), fb.ssr, fb.N)}
+        except Exception as ex:
+            return {'exn': ex}
+        finally:
+            self.context._context = saved
+
+    @staticmethod
+    def _clip_ok(got, want):
+        """the wrapper's r is the type-B r, or +-1 when the type-B r is in the rounding band outside [-1,1]"""
+        if float(got).hex() == float(want).hex(): return True
+        return 1.0 < abs(want) < 1.0 + 1e-10 and got == math.copysign(1.0, want)
+
     def fit_wtls(self, x, y, ux, uy, dof=None, label=None, r_xy=None, a0_b0=None):
         ctx = self.context._context
         ne0 = ctx._elementary_id_counter
@@ -175,6 +211,11 @@ class FSession(KSession):
         except Exception as ex:
             fit, err = None, ex
         pyop = ('fit', 'CWTLS', list(x), list(y), (list(ux), list(uy), r_xy, a0_b0), dof, label)
+        def mk(skip, v):
+            return '(Some (mkWO %s %s %s %s %s %s %s %s))' % (cz(skip), cf(v[0]), cf(v[1]), cf(v[2]), cf(v[3]), cf(v[4]), cf(v[5]), cz(v[6]))
+        def term(orc):
+            return '(FFitWTLS %s %s %s %s %s %s %s)' % (cflist(x), cflist(y), cflist(ux), cflist(uy), cdof(dof), clab(label), orc)
+        lens_ok = len(x) == len(y) == len(ux) == len(uy)
         if fit is None:
             import traceback
             frames = [f.filename for f in traceback.extract_tb(err.__traceback__)]
@@ -183,39 +224,37 @@ class FSession(KSession):
                 # the external type-B fit itself failed (e.g. the bracket invariant of its minimiser)
                 orc = '(Some (WOExn %s %s))' % (cz(ctx._elementary_id_counter - ne0), cexn(type(err).__name__))
                 self.stats['wtls-external-' + type(err).__name__] = self.stats.get('wtls-external-' + type(err).__name__, 0) + 1
-            t = '(FFitWTLS %s %s %s %s %s %s %s)' % (cflist(x), cflist(y), cflist(ux), cflist(uy), cdof(dof), clab(label), orc)
+            elif lens_ok and ctx._elementary_id_counter > ne0:
+                # the wrapper failed AFTER the type-B fit returned (declaration of a, b or a.set_correlation):
+                # the model needs what type_b returned -- taken from the reference run
+                ref = self._typeb_reference(x, y, ux, uy, r_xy, a0_b0)
+                if 'vals' in ref:
+                    orc = mk(ref['skip'], ref['vals'])
+                    self.stats['wtls-failed-after-type_b-' + type(err).__name__] = self.stats.get('wtls-failed-after-type_b-' + type(err).__name__, 0) + 1
             self.fits.append(None); self.fit_slots.append(None)
-            self._emit(t, pyop, '(OutExn %s)' % cexn(type(err).__name__), [None, None])
+            self._emit(term(orc), pyop, '(OutExn %s)' % cexn(type(err).__name__), [None, None])
             self.stats['exn'] = self.stats.get('exn', 0) + 1
             return None
         a, b = fit.a_b
         skip = a._node.uid[1] - 1 - ne0
         r = a.get_correlation(b)
-        orc = '(Some (mkWO %s %s %s %s %s %s %s %s))' % (cz(skip), cf(a.x), cf(a.u), cf(b.x), cf(b.u), cf(r), cf(fit.ssr), cz(fit.N))
-        t = '(FFitWTLS %s %s %s %s %s %s %s)' % (cflist(x), cflist(y), cflist(ux), cflist(uy), cdof(dof), clab(label), orc)
-        # the wrapper must agree with type_b.line_fit_wtls on the same data (run in a context of its own)
-        saved = self.context._context
-        try:
-            new_context(self.ctx_id + 100000)
-            ind = r_xy is None
-            xu = [self.lib.UncertainReal._elementary(float(v), w, math.inf, None, ind) for v, w in zip(x, ux)]
-            yu = [self.lib.UncertainReal._elementary(float(v), w, math.inf, None, ind) for v, w in zip(y, uy)]
-            if not ind:
-                for p, q, rr in zip(xu, yu, r_xy): p.set_correlation(rr, q)
-            fb = self.tb.line_fit_wtls(xu, yu, a_b=a0_b0)
-            ab, bb = fb.a_b
-            got = (a.x, a.u, b.x, b.u, r, fit.ssr, fit.N)
-            want = (ab.x, ab.u, bb.x, bb.u, ab.get_correlation(bb), fb.ssr, fb.N)
-            if [float(v).hex() for v in got] != [float(v).hex() for v in want]:
-                self.side.append({'kind': 'wtls-wrapper-vs-type_b', 'op': pyop, 'type_a': got, 'type_b': want})
-        except Exception as ex:
-            self.side.append({'kind': 'wtls-wrapper-vs-type_b', 'op': pyop, 'type_b_raised': repr(ex)})
-        finally:
-            self.context._context = saved
+        # the wrapper must agree with type_b.line_fit_wtls on the same data (reference run); the oracle handed to
+        # the model is the TYPE-B result (its correlation is what the wrapper then clips / re-declares)
+        ref = self._typeb_reference(x, y, ux, uy, r_xy, a0_b0)
+        if 'vals' not in ref:
+            self.side.append({'kind': 'wtls-wrapper-vs-type_b', 'op': pyop, 'type_b_raised': repr(ref['exn'])})
+            vals = (a.x, a.u, b.x, b.u, r, fit.ssr, fit.N)
+        else:
+            vals = ref['vals']
+            got = (a.x, a.u, b.x, b.u, fit.ssr, fit.N); want = vals[:4] + vals[5:]
+            if [float(v).hex() for v in got] != [float(v).hex() for v in want] or not self._clip_ok(r, vals[4]) or ref['skip'] != skip:
+                self.side.append({'kind': 'wtls-wrapper-vs-type_b', 'op': pyop, 'type_a': got + (r, skip), 'type_b': want + (vals[4], ref['skip'])})
+            if float(r).hex() != float(vals[4]).hex():
+                self.stats['wtls-r-clipped'] = self.stats.get('wtls-r-clipped', 0) + 1
         if skip != 2 * len(x) + 1:
             self.stats['wtls-skip-%d' % (skip - 2 * len(x))] = 1
         self.fits.append(fit); self.fit_slots.append((len(self.slots), len(self.slots) + 1))
-        self._emit(t, pyop, self._fit_out(fit), [a, b])
+        self._emit(term(mk(skip, vals)), pyop, self._fit_out(fit), [a, b])
         return fit
 
     # ---------------- predictions
@@ -322,10 +361,14 @@ def gen_x(rng, n, kind):
         return xs
     if kind == 'offset':
         return [1e4 + rng.uniform(0, 1) for _ in range(n)]
+    if kind == 'far':
+        # x far from zero (shift 1e5 .. 1e9): r_ab -> -+1, the quotient can round to 1 + ulp (_clip_r)
+        shift = rng.choice([1.0, -1.0]) * 10.0 ** rng.uniform(5, 9)
+        return [shift + rng.uniform(0, 10) for _ in range(n)]
     return [rng.uniform(-10, 10) for _ in range(n)]
 
 def gen_data(rng, n):
-    kind = rng.choice(['grid', 'ints', 'cluster', 'repeat', 'offset', 'uniform', 'uniform'])
+    kind = rng.choice(['grid', 'ints', 'cluster', 'repeat', 'offset', 'far', 'far', 'uniform', 'uniform'])
     x = gen_x(rng, n, kind)
     if rng.random() < 0.3: rng.shuffle(x)
     a0 = rng.choice([0.0, 1.0, -2.5, rng.uniform(-5, 5)]); b0 = rng.choice([1.0, -0.5, 2.0, rng.uniform(-3, 3), 1e-3])
@@ -498,8 +541,64 @@ def gen_program(rng, ctx_id, index):
     s.close()
     return s
 
+# data sets (from the C11-6 replay) for which -S_x/(N*S_tt*siga*sigb) evaluates to -(1 + ulp)
+CLIP_CASES = [
+    ('COLS', [100000007.51257838, 100000009.18512882, 100000009.46636488],
+             [2.0594292183694094, 1.3646728771488998, 1.8420474224729038], None),
+    ('CWLS', [99999998.12263757, 100000000.90648653, 99999997.23853232, 99999998.68926688],
+             [-1.0766564507498613, -0.9834720806860178, 1.6209939783878164, -0.4165849718725969], [0.5] * 4),
+    ('CRWLS', [100000005.06878997, 100000007.15429312, 100000005.1488739],
+              [-2.5457356721573525, 2.2295855410972107, 1.2692051925560257], [0.5] * 3),
+]
+
+# the WTLS wrapper: the correlation of the type-B (a, b) is 1 + ulp (found by the thorough C05 run, far layout)
+WTLS_CLIP_CASE = {
+    'x': [-388112657.6284376, -388112658.51749456, -388112659.3259595, -388112660.57414216, -388112655.55354434,
+          -388112657.2571792, -388112659.38319755, -388112654.1852127, -388112655.63990843, -388112660.6483814,
+          -388112663.2023041],
+    'y': [4.636992695419677] * 11,
+    'ux': [0.16187488648140838, 0.23526258165881692, 0.21746102966759298, 0.22012068002998336, 0.28670691624169486,
+           0.10659477304190741, 0.11030772511007027, 0.22221222925893386, 0.11273858948944164, 0.09908210910749085,
+           0.03310152042474226],
+    'uy': [0.9098282155932774, 0.30291928976702354, 1.1128215520296805, 2.9730475376306145, 1.702368994889182,
+           2.7936645952088317, 1.116969883719609, 0.30154971857231655, 1.1671148170572234, 1.6279631215101364,
+           2.080020259565961],
+    'r_xy': [0.5907661772444751, -0.5284336014336658, -0.36608411649207284, -0.1734405239643329, -0.47213664302393665,
+             -0.01935874947813132, -0.4004665660058042, 0.1608612449395449, 0.30936798647018426, -0.3493088249147579,
+             0.17579048317008783],
+    'a0_b0': [4.636992695419677, -0.0],
+}
+
+def gen_wtls_clip_program(rng, ctx_id):
+    s = FSession(ctx_id)
+    c = WTLS_CLIP_CASE
+    f = s.fit_wtls(c['x'], c['y'], c['ux'], c['uy'], None, None, c['r_xy'], c['a0_b0'])
+    s.kinds['clip-band:CWTLS'] += 1
+    s.kinds['fit:CWTLS:clip'] += 1
+    if f is not None:
+        observe_fit(s, rng, 0)
+    s.heap_ok = s.check_heap()
+    s.close()
+    return s
+
+def gen_clip_program(rng, ctx_id, k):
+    """a fit whose correlation quotient is in the rounding band just outside [-1,1], then reads and predictions"""
+    s = FSession(ctx_id)
+    cls, x, y, w = CLIP_CASES[k % len(CLIP_CASES)]
+    f = s.fit_ols(x, y, None) if cls == 'COLS' else s.fit_wls(x, y, w, 5, None) if cls == 'CWLS' else s.fit_rwls(x, y, w, None, None)
+    s.kinds['clip-band:' + cls] += 1
+    s.kinds['fit:%s:clip' % cls] += 1
+    if f is not None:
+        observe_fit(s, rng, 0)
+        predictions(s, rng, 0, k)
+    s.heap_ok = s.check_heap()
+    s.close()
+    return s
+
 def run_corr(rng, nprog, name='C13', per_file=None):
     sessions = [gen_program(rng, 1 + i, i) for i in range(nprog)]
+    sessions += [gen_clip_program(rng, 1 + nprog + k, k) for k in range(len(CLIP_CASES))]
+    sessions.append(gen_wtls_clip_program(rng, 1 + nprog + len(CLIP_CASES)))
     d = scratch('corr_' + name)
     per_file = per_file or max(4, (nprog + NCPU - 1) // NCPU)
     files = emit_cases(d, sessions, per_file=per_file)
@@ -531,7 +630,7 @@ def run_corr(rng, nprog, name='C13', per_file=None):
     dist = dict(stats); dist.update(kinds)
     return {'programs': len(sessions), 'steps': sum(len(s.ops) for s in sessions), 'mismatches': mism,
             'distinct': distinct, 'distribution': dist,
-            'rule': 'one program = optional earlier declarations, a fit (the 26 combinations of class x dof x label '
+            'rule': '(+4 fixed programs on data whose correlation rounds to +-(1+ulp): the _clip_r branch of the three fits and of the WTLS wrapper) one program = optional earlier declarations, a fit (x layouts incl. far from zero, shift 1e5..1e9; the 26 combinations of class x dof x label '
                     '[x r_xy x a0_b0 for WTLS] are cycled, N cycles through 3..12), reads of a and b (x, u, df, correlation, '
                     'covariance), 2-4 predictions cycling the 8 combinations of the optional labels and a plain / uncertain '
                     'stimulus, reads of each result (x, u, df, components w.r.t. a and b); after each later prediction the df and u of '
